@@ -183,17 +183,30 @@ fn run_child(depth: usize, steps: &[(usize, Driver)], tag: &str) -> Result<Vec<O
     Ok(out)
 }
 
-/// Pick a search depth such that `spin` runs for several seconds untimed on this machine.
+/// Pick a search depth such that `spin` runs for many seconds untimed on this machine.
+/// The supervisor measures once, before the workers start (`worker --calibrate`), and hands
+/// the result to every worker through VERIF_SLOW_DEPTH, so that all shards and all child
+/// processes of one run use the same depth. The measurement takes the *minimum* of several
+/// runs (a cold or loaded first run would under-size the search) and the growth factor 12
+/// per level is a lower bound of the real one, so the estimate errs on the slow side.
 pub fn calibrate_depth() -> usize {
+    if let Ok(s) = std::env::var("VERIF_SLOW_DEPTH") { if let Ok(d) = s.parse::<usize>() { if d >= 4 && d <= 12 { return d; } } }
+    measure_depth()
+}
+
+pub fn measure_depth() -> usize {
     let kb = load_kb(4);
-    let t0 = Instant::now();
-    let q = Rc::new(parse_query("spin").unwrap());
-    let sn = make_base_node(q, &kb);
-    let _ = next_solution(sn);
-    let ms4 = t0.elapsed().as_secs_f64() * 1000.0;      // 12^4 combinations
-    // want >= 6000 ms unloaded; each level multiplies by 12
-    let mut depth = 4; let mut est = ms4.max(0.5);
-    while est < 6000.0 { depth += 1; est *= 12.0; }
+    let mut ms4 = f64::MAX;
+    for _ in 0..5 {
+        let t0 = Instant::now();
+        let q = Rc::new(parse_query("spin").unwrap());
+        let sn = make_base_node(q, &kb);
+        let _ = next_solution(sn);
+        ms4 = ms4.min(t0.elapsed().as_secs_f64() * 1000.0);      // 12^4 combinations
+    }
+    // want >= 10 s estimated (the 1 s limit ten times over); each level multiplies by >= 12
+    let mut depth = 4; let mut est = ms4.max(0.05);
+    while est < 10_000.0 { depth += 1; est *= 12.0; }
     depth
 }
 
